@@ -82,6 +82,24 @@ type Case struct {
 
 // ---------- building the real server from a description ----------
 
+// OracleFormatter is the property's reading of the name formatters, written without calling the library:
+// the expectations of a check must not be computed by the code under test.
+func OracleFormatter(f Fmt) func(ns, m string) string {
+	sep := f.Sep
+	if sep == "" {
+		sep = "."
+	}
+	return func(ns, m string) string {
+		if f.Lower && len(m) > 0 {
+			m = strings.ToLower(m[:1]) + m[1:]
+		}
+		if f.Ns {
+			return ns + sep + m
+		}
+		return m
+	}
+}
+
 func Formatter(f Fmt) jsonrpc.MethodNameFormatter {
 	if f.Sep == "" || f.Sep == "." {
 		cs := jsonrpc.OriginalCase
